@@ -55,6 +55,7 @@ type Plan struct {
 	RespLen     int    `json:"resp_len"`     // response body length
 	RespChunk   int    `json:"resp_chunk"`   // response body read granularity
 	RespEnd     string `json:"resp_end"`     // eof eofwithdata err stall
+	RespCT      string `json:"resp_ct"`      // "" (application/octet-stream, registered) | unregistered | malformed | absent: Content-Type of the response
 	Reader      string `json:"reader"`       // readall partial none sizes
 	ReadSizes   []int  `json:"read_sizes"`   // reader "sizes": buffer sizes of successive reads (0 allowed), then return
 	Reuse       bool   `json:"reuse"`        // EnableConnectionReuse
@@ -127,6 +128,7 @@ func (d declaredSrc) ContentType() string { return d.src.ct }
 // response body ---------------------------------------------------------------------------------------
 
 type respBody struct {
+	ctHeader  string
 	mu        sync.Mutex
 	ctx       context.Context
 	data      []byte
@@ -365,7 +367,17 @@ func Check(p Plan) *kit.Violation {
 		mu.Lock()
 		body = b
 		mu.Unlock()
-		return &http.Response{StatusCode: 200, Status: "200 OK", Header: http.Header{"Content-Type": {"application/octet-stream"}}, Body: b, Request: req}, nil
+		hdr := http.Header{"Content-Type": {"application/octet-stream"}}
+		switch p.RespCT {
+		case "unregistered":
+			hdr = http.Header{"Content-Type": {"image/x-unregistered"}}
+		case "malformed":
+			hdr = http.Header{"Content-Type": {"application/json; charset"}}
+		case "absent":
+			hdr = http.Header{}
+		}
+		b.ctHeader = hdr.Get("Content-Type")
+		return &http.Response{StatusCode: 200, Status: "200 OK", Header: hdr, Body: b, Request: req}, nil
 	})
 	if p.Reuse {
 		r.EnableConnectionReuse()
@@ -620,6 +632,12 @@ func Check(p Plan) *kit.Violation {
 	if readerErr != nil {
 		why = append(why, "reader could not read the response completely")
 	}
+	if body != nil && (p.RespCT == "unregistered" || p.RespCT == "malformed") {
+		why = append(why, "response content type without a consumer")
+		if readerRan {
+			return kit.Failf("READER-RAN: the response carries the %s Content-Type %q for which no consumer is registered, yet the reader was called", p.RespCT, body.ctHeader)
+		}
+	}
 	if len(why) > 0 && out.err == nil {
 		return kit.Failf("FAULT-AS-SUCCESS: %s, yet Submit returned success %v", strings.Join(why, "; "), out.v)
 	}
@@ -662,8 +680,12 @@ func Gen(t *rapid.T) Plan {
 	p.ParamErr = rapid.SampledFrom([]string{"", "", "", "", "before", "after"}).Draw(t, "paramerr")
 	p.Auth = rapid.SampledFrom([]string{"none", "ok", "err", "getbody", "getbody2"}).Draw(t, "auth")
 	p.RT = rapid.SampledFrom([]string{"ok", "ok", "ok", "errBefore", "errAfterBody", "noread"}).Draw(t, "rt")
-	p.RespLen = rapid.SampledFrom([]int{0, 1, 2, 3, 10, 20, 5000}).Draw(t, "resplen")
+	p.RespLen = rapid.SampledFrom([]int{0, 1, 2, 3, 10, 20, 5000, 262144, 262145, 300000, 1 << 20}).Draw(t, "resplen")
 	p.RespChunk = rapid.SampledFrom([]int{1, 3, 4096}).Draw(t, "respchunk")
+	if p.RespLen > 5000 {
+		p.RespChunk = 65536 // large bodies: what is left unread at Close is what matters, not the chunking
+	}
+	p.RespCT = rapid.SampledFrom([]string{"", "", "", "", "unregistered", "malformed", "absent"}).Draw(t, "respct")
 	p.RespEnd = rapid.SampledFrom([]string{"eof", "eof", "eofwithdata", "err", "stall"}).Draw(t, "respend")
 	p.Reader = rapid.SampledFrom([]string{"readall", "readall", "partial", "none", "sizes"}).Draw(t, "reader")
 	if p.Reader == "sizes" {
@@ -815,6 +837,8 @@ func Classify(p Plan) (bool, []string) {
 	add(p.RespEnd == "err" || p.RespEnd == "stall", "response fault")
 	add(p.CancelAt != "", "cancel "+p.CancelAt)
 	add(p.URLErr, "url error")
+	add(p.RespCT == "unregistered" || p.RespCT == "malformed", "response content type "+p.RespCT)
+	add(p.RespLen > 262144 && p.Reuse && p.Reader != "readall", "reuse with more than 256 KiB unread")
 	add(p.sourceFails() && p.SrcErr != "", "source fails with "+p.SrcErr)
 	add(p.TimeoutMs < 0, "default request timeout")
 	add(p.TimeoutMs > 0 && p.DefaultMs == p.TimeoutMs, "explicit timeout equal to the default")
